@@ -293,10 +293,24 @@ cov_count(const char *name, uint64_t n)
                 __atomic_fetch_add(&counters[i].n, n, __ATOMIC_RELAXED);
         pthread_mutex_unlock(&cov_mu);
 }
+extern uint64_t imbv_wrap_ncalls;
 void
 cov_flush(void)
 {
         char e[800];
+#ifdef IMBV_WRAP
+        {
+                extern struct {
+                        const char *name;
+                        const uint64_t *count;
+                } imbv_wrap_table[];
+                cov_count("wrapped_asm_calls", imbv_wrap_ncalls);
+                cov_count("wrapped_asm_symbols", IMBV_WRAP);
+                for (int i = 0; imbv_wrap_table[i].name; i++)
+                        if (*imbv_wrap_table[i].count)
+                                cov_hit("wrap_symbol_entered", "%s", imbv_wrap_table[i].name);
+        }
+#endif
         for (int c = 0; c < ncovc; c++) {
                 ev_printf("{\"ev\":\"cov\",\"cls\":\"%s\",\"hits\":%llu,\"distinct\":%llu}", covc[c].name,
                           (unsigned long long) covc[c].hits, (unsigned long long) covc[c].distinct);
@@ -494,6 +508,40 @@ abi_flush(void)
 }
 static const char *regn[] = { "rbx", "rbp", "r12", "r13", "r14", "r15" };
 static const int regidx[] = { 1, 6, 12, 13, 14, 15 };
+/* M-WRAP (wrap_common.S): records of calling-convention violations on C-to-assembly calls inside the library */
+extern __thread uint64_t imbv_wrap_sp;
+extern uint64_t imbv_wrap_nviol, imbv_wrap_ncalls;
+extern struct {
+        const char *name;
+        uint64_t mask, expected, got;
+} imbv_wrap_viol[256];
+static uint64_t wrap_reported;
+static pthread_mutex_t wrap_mu = PTHREAD_MUTEX_INITIALIZER;
+static void
+wrap_report(struct callmon *cm, const char *entry, uint64_t from)
+{
+        static const char *rn[] = { "rbx", "rbp", "r12", "r13", "r14", "r15", "rsp", "DF", "mxcsr" };
+        (void) from;
+        pthread_mutex_lock(&wrap_mu);
+        uint64_t n = __atomic_load_n(&imbv_wrap_nviol, __ATOMIC_ACQUIRE);
+        for (uint64_t i = wrap_reported; i < n && i < 256; i++) {
+                char regs[80] = "", key[240], det[400];
+                for (int b = 0; b < 9; b++)
+                        if (imbv_wrap_viol[i].mask & (1u << b)) {
+                                strcat(regs, regs[0] ? "+" : "");
+                                strcat(regs, rn[b]);
+                        }
+                snprintf(key, sizeof key, "C18|%s|internal|%s|%s", variant_name(cm->cur_variant), imbv_wrap_viol[i].name ? imbv_wrap_viol[i].name : "?", regs);
+                snprintf(det, sizeof det,
+                         "assembly routine %s (called from the library's C code while the entry point %s was running) returned with %s "
+                         "changed: expected %#llx got %#llx",
+                         imbv_wrap_viol[i].name ? imbv_wrap_viol[i].name : "?", entry, regs, (unsigned long long) imbv_wrap_viol[i].expected,
+                         (unsigned long long) imbv_wrap_viol[i].got);
+                ev_violation("C18", key, det, NULL);
+        }
+        wrap_reported = n < 256 ? n : 256;
+        pthread_mutex_unlock(&wrap_mu);
+}
 uint64_t
 mcall(const char *name, void *fn, int nargs, ...)
 {
@@ -525,7 +573,11 @@ mcall(const char *name, void *fn, int nargs, ...)
         }
         cm->cur_fn = name;
         cm->ncalls++;
+        imbv_wrap_sp = 0; /* M-WRAP shadow stack: this call is outermost (also after a fault longjmp) */
+        const uint64_t wrap_before = __atomic_load_n(&imbv_wrap_nviol, __ATOMIC_RELAXED);
         uint64_t r = imbv_tramp(tc);
+        if (__atomic_load_n(&imbv_wrap_nviol, __ATOMIC_RELAXED) != wrap_before)
+                wrap_report(cm, name, wrap_before);
         if (g_abi_cov) {
                 cov_hit("C18", "%s|%s|ret%d|mx%d", variant_name(cm->cur_variant), name, r != 0, mxi);
                 abi_note_export(fn);
